@@ -25,6 +25,14 @@ from . import gen_arch as ga
 from . import c01_net as cn
 
 IMPORTS = ['Plinio.Model.Masks', 'Plinio.Model.Conv']
+# minimized earlier failures, always run first (witnesses of the fixed findings; K = 4, 6, 7 = the comb-anchoring defect of C08)
+CORPUS = [
+    {'seed': 750449446, 'kind': 'pattern', 'pat': [3, 1, 1, 0], 'fold': True, 'mode': 'mix', 'integer': True, 'dw_mid': False},
+    {'seed': 445864591, 'kind': 'pattern', 'pat': [2, 2, 2, 0], 'fold': True, 'mode': 'mix', 'integer': False, 'dw_mid': False},
+    {'seed': 11, 'kind': 'pattern', 'pat': [4, 1, 1, 0], 'fold': False, 'mode': 'mix', 'integer': True, 'dw_mid': False},
+    {'seed': 12, 'kind': 'pattern', 'pat': [6, 2, 3, 1], 'fold': False, 'mode': 'mix', 'integer': True, 'dw_mid': False},
+    {'seed': 13, 'kind': 'pattern', 'pat': [7, 3, 5, 2], 'fold': True, 'mode': 'mix', 'integer': True, 'dw_mid': True},
+]
 
 
 # ----------------------------------------------------------------------------- jobs
@@ -34,7 +42,7 @@ def all_patterns(Kmax):
 
 def make_jobs(ctx):
     rng = ctx.rng
-    jobs = []
+    jobs = [('net', dict(j)) for j in CORPUS]
     pats = all_patterns(9)
     if ctx.quick:
         hi = [p for p in pats if p[0] > 6]
